@@ -375,6 +375,43 @@ def _mentions(e, flag):
     return False
 
 
+def rule_F2p(ctx, rid='F2'):
+    """Pool set-up in Sampler.__init__: `vectorized` only decides how the likelihood is called.
+    Which pools exist, and their sizes (from which the default batch size and the split of the
+    proposal work are derived), must not depend on it - otherwise a scalar and a vectorised
+    run with the same settings differ."""
+    ctx.rule(rid + 'p', 'the pools a sampler ends up with do not depend on `vectorized`: under a '
+             'test of that flag a pool entry is only ever replaced by a NautilusPool built from '
+             'the same entry')
+    init = ctx.program.func('Sampler.__init__')
+    cfg = cfg_of(init)
+    n = 0
+    for st in walk_no_nested(init.node):
+        if not (isinstance(st, ast.Assign) and len(st.targets) == 1 and cfg.has(st)):
+            continue
+        t = st.targets[0]
+        if not (isinstance(t, ast.Subscript) and isinstance(t.value, ast.Name) and
+                t.value.id == 'pool'):
+            continue
+        nid = cfg.node_of(st).id
+        flagged = [tr for _, tx, tr in cfg.facts(nid) if 'vectorized' in tx]
+        if not flagged:
+            continue
+        v = st.value
+        same = isinstance(v, ast.Call) and (dotted(v.func) or '').endswith('NautilusPool') and \
+            v.args and unparse(v.args[0]) == unparse(t)
+        n += 1
+        ctx.ob(rid + 'p', 'Sampler.__init__:pool-entry-independent-of-vectorized@%s' % (
+            'vectorized' if flagged[0] else 'scalar'), same, init.where(st),
+            'under the vectorized test the entry is replaced by a pool of its own size' if same
+            else '`%s` under a test of `vectorized`: a plain integer pool is one entry that '
+            'serves as likelihood AND sampler pool, so the vectorised run loses (or resizes) the '
+            'pool that builds and samples the bounds while the scalar run keeps it - same seed, '
+            'different result' % unparse(st)[:50])
+    ctx.require(n >= 1, 'F2p: pool set-up under the vectorized test not found')
+    return n
+
+
 def rule_F2(ctx, rid='F2'):
     ctx.rule(rid, 'observational independence: statements control-dependent on a test of '
              'verbose / self.filepath / self.vectorized / self.pool_l write no sampler or bound '
